@@ -1,6 +1,7 @@
 """C11 — pivot changes compose: identity, inverse, path independence (DESIGN.md section 6/C11).
 
-model  : Model/Helix.lean::changePivot    proof : Props/C11.lean over the reals
+model  : Model/Helix.lean::changePivot, jacobian, propagate
+proof  : Props/C11.lean (parameters) and Props/C11b.lean (error matrices: J_back J_forth = 1, chain rule J_2 J_1 = J_direct) over the reals
 tie    : chained Lean Float model calls <-> chained change_pivot calls (object, record, array forms)
 oracle : direct move to the last pivot; identity; there-and-back (parameters and error matrix)
 """
@@ -125,6 +126,52 @@ def run(chk: core.Check, n: int, n_obj: int):
         if b.any():
             i = int(np.nonzero(b)[0][0])
             chk.failing_input(name, pd(i), {k: float(back[k][i]) for k in ("dr", "phi0", "dz")}, {k: float(h[k][i]) for k in ("dr", "phi0", "dz")}, orc)
+    # ---- error matrices along a pivot sequence vs the direct move (Props/C11b.lean::error_path_independent): array and object form
+    far_from_centre = np.ones(n, bool)
+    for k in range(Lmax):
+        far_from_centre &= np.hypot(cx - pivs[k][:, 0], cy - pivs[k][:, 1]) > 1e-2 * np.abs(r)
+    regE = reg & within & far_from_centre & valid0
+    ch_arr = chain_impl_array(h, [pivs[k] for k in range(Lmax)], error=E)
+    di_arr = chain_impl_array(h, [pivs[Lmax - 1]], error=E)
+    Ec, Ed = ak.to_numpy(ch_arr.error), ak.to_numpy(di_arr.error)
+    sig = np.sqrt(np.maximum(np.einsum("nii->ni", np.abs(Ed)), 1e-300))
+    ok_pe = (np.abs(Ec - Ed) <= 1e-6 * sig[:, :, None] * sig[:, None, :] * (1 + (sc / np.abs(r)) ** 2)[:, None, None] + 1e-18).all(axis=(1, 2))
+    chk.count(n, key="error-path")
+    b = ~ok_pe & regE
+    if b.any():
+        i = int(np.nonzero(b)[0][0])
+        chk.failing_input("error matrix after a pivot sequence vs the direct move (array form)", dict(pd(i), error=E[i].tolist()), Ec[i].tolist(), Ed[i].tolist(),
+                          "moving through any sequence of pivots gives the same result as moving directly to the last one (error matrix: J_k ... J_1 E J_1^T ... J_k^T = J E J^T)")
+    for i in np.nonzero(regE)[0][: max(5, n_obj // 5)]:
+        o = pybes3.helix_obj(h["dr"][i], h["phi0"][i], h["kappa"][i], h["dz"][i], h["tanl"][i], pivot=tuple(h["piv"][i]), error=E[i])
+        od = o.change_pivot(tuple(pivs[Lmax - 1][i]))
+        for k in range(Lmax):
+            o = o.change_pivot(tuple(pivs[k][i]))
+        chk.count(1, key="error-path-object")
+        if not (np.abs(np.asarray(o.error) - np.asarray(od.error)) <= 1e-6 * sig[i][:, None] * sig[i][None, :] * (1 + (sc[i] / abs(r[i])) ** 2) + 1e-18).all():
+            chk.failing_input("error matrix after a pivot sequence vs the direct move (object form)", dict(pd(int(i)), error=E[i].tolist()), np.asarray(o.error).tolist(), np.asarray(od.error).tolist(),
+                              "moving through any sequence of pivots gives the same result as moving directly to the last one (error matrix)")
+            break
+    # ---- integer-typed dr / dz columns with common non-integer pivots given as tuples: the chain ends where the direct move ends,
+    # and the reported pivot is the requested one
+    m = min(n, 40)
+    hi = {k: v[:m].copy() for k, v in h.items()}
+    hi["dr"] = np.zeros(m, dtype=np.int64); hi["dz"] = np.rint(h["dz"][:m]).astype(np.int32)
+    t1 = tuple(float(x) for x in rng.uniform(-20, 20, 3) + 0.251)
+    t2 = tuple(float(x) for x in rng.uniform(-20, 20, 3) + 0.377)
+    mk = lambda: pybes3.helix_awk(dr=ak.Array(hi["dr"]), phi0=ak.Array(hi["phi0"]), kappa=ak.Array(hi["kappa"]), dz=ak.Array(hi["dz"]), tanl=ak.Array(hi["tanl"]), pivot=(0.5, -0.25, 1.5))
+    via = to_np(mk().change_pivot(t1).change_pivot(t2)); dire = to_np(mk().change_pivot(t2))
+    chk.count(3 * m, key="int-dtype-chain")
+    hreg = dict(hi, dr=hi["dr"].astype(float), piv=np.array([(0.5, -0.25, 1.5)] * m), new=np.array([t2] * m))
+    regi = hc.regular_mask(hreg) & hc.regular_mask(dict(hreg, new=np.array([t1] * m)))
+    sci = 1 + np.abs(hc.rho(hi["kappa"])) + 40
+    ok_i = hc.close(via["dr"], dire["dr"], atol=tolr * sci) & hc.circ_close(via["phi0"], dire["phi0"], 1e-8) & (np.abs(via["piv"] - np.array(t2)).max(axis=1) == 0) & (np.abs(dire["piv"] - np.array(t2)).max(axis=1) == 0)
+    b = ~ok_i & regi
+    if b.any():
+        i = int(np.nonzero(b)[0][0])
+        chk.failing_input("pivot sequence vs direct move on integer-typed dr/dz columns with non-integer tuple pivots", {"helix": {k: float(hi[k][i]) for k in ("dr", "phi0", "kappa", "dz", "tanl")}, "dtypes": {"dr": "int64", "dz": "int32"}, "pivot": [0.5, -0.25, 1.5], "sequence": [list(t1), list(t2)]},
+                          {"dr": float(via["dr"][i]), "phi0": float(via["phi0"][i]), "reported_pivot": via["piv"][i].tolist(), "direct_reported_pivot": dire["piv"][i].tolist()}, {"dr": float(dire["dr"][i]), "phi0": float(dire["phi0"][i]), "reported_pivot": list(t2)},
+                          "same result as moving directly to the last pivot; the reported pivot is the requested one")
     # ---- object and record forms on a subset: chained object == chained array
     for i in range(n_obj):
         o = pybes3.helix_obj(h["dr"][i], h["phi0"][i], h["kappa"][i], h["dz"][i], h["tanl"][i], pivot=tuple(h["piv"][i]))
@@ -158,7 +205,7 @@ def main(chk: core.Check) -> int:
     n, n_obj = (10000, 600) if chk.tier == "thorough" else (1500, 100)
     chk.coverage["rule"] = "evaluations = change_pivot calls along generated pivot sequences (length 1-8, pivots up to 4 m away); tolerance 1e-8 relative to track scale"
     chk.assumptions += ["theorems over the reals; float-only edge new_phi0 == float(2*pi) is outside the model", "hand-written model mirrors helix.py after the fix: commits"]
-    chk.prove()
+    chk.prove(modules=["C11", "C11b"])
     try:
         diffs = run(chk, n, n_obj)
         chk.coverage["traces_validated_against_impl"] = n
